@@ -3,7 +3,7 @@
      MODE := r | m      (render main with the data / Template.module of main)
      STMT := o STR | p NAME | a M X | s NAME c STR | s NAME v NAME | m NAME STR
            | i ISLIST WITH IGNORE NT TARGET... | I TARGET ALIAS WITH | F TARGET N (NAME ALIAS)... WITH
-           | S KIND NAME NV STR... NB STMT...          KIND := f | w | m | b | B
+           | S KIND NAME NV STR... NB STMT... | X TARGET          KIND := f | w | m | b | B
      TARGET := n ID | o ID        STR := - | c1.c2.c3
    prints  M RES | S RES | X 0/1 | K RES       RES := O STR [; name=STR,...] | E ERR
    X = 1 when the exported names of main's module agree with the last-binder rule *)
@@ -35,6 +35,7 @@ let rec stmt () =
   | "F" -> let t = target () in let n = int () in
            let names = rep n (fun () -> let a = nm () in let b = nm () in (a, b)) in
            let w = int () = 1 in SFrom (t, names, w)
+  | "X" -> SExtend (target ())
   | "S" -> let k = (match next () with "f" -> KFor | "w" -> KWith | "m" -> KMacro | "b" -> KBlock | "B" -> KBlockS | y -> failwith ("bad kind " ^ y)) in
            let x = nm () in let nv = int () in let vals = rep nv (fun () -> str_of (next ())) in
            let nb = int () in let body = rep nb stmt in SScope (k, x, vals, body)
@@ -67,7 +68,7 @@ let () =
       else begin
         let m = module_of fuel ts main in
         let x = (match m, List.assoc_opt main ts with
-                 | Ok (_, ex), Some t ->
+                 | Ok (_, ex), Some t when not (List.exists (function SExtend _ -> true | _ -> false) t.t_body) ->
                      let names = List.sort_uniq compare (List.map (fun (k, _) -> int_of_n k) ex) in
                      let all = List.init 120 (fun i -> i) in
                      let want = List.filter (fun i -> exported_spec t.t_body (n_of_int i)) all in
